@@ -1,11 +1,57 @@
 (* C09 — JSON text is read and written as the grammar and encoding/json define it.
-   Only statements, closed by [exact], with [Print Assumptions] beneath each. *)
+   Only statements, closed by [exact], with [Print Assumptions] beneath each.
+   Spec.v (JsonStd) is the reference; Model.v mirrors /repo/codec after the
+   repairs F09-1 (readFloat counters) and F09-2 (lone surrogates). *)
 From Coq Require Import List NArith ZArith Bool.
-From Verif Require Import Gen.Consts Base.Outcome C09.Spec C09.Model C09.ProofsStr.
+From Verif Require Import Gen.Consts Base.Outcome C09.Spec C09.Model C09.ProofsStr C09.ProofsNum.
 Import ListNotations.
 
+(* readFloat on the text of ANY literal of the JSON number grammar, for each of the
+   three floatinfo parameter sets the code uses: it never calls the literal bad, it
+   keeps the sign, and whenever it answers ok (the exact fast path will be taken)
+   mantissa * 10^exp IS the literal's exact value; otherwise it has flagged the
+   slow path (trunc or hardexp).  The length bound is vacuous for Go slices
+   (Go int counters, 64 bit). *)
+Theorem C09_readfloat : forall (n : numlit) (upper : bool) (y : floatinfo),
+  wf_numlit n = true -> In y [fi32; fi64; fi64u] ->
+  (Z.of_nat (length (render_num upper n)) < 2 ^ 61)%Z ->
+  let r := readFloat (render_num upper n) y in
+  rbad r = false /\ rneg r = nneg n /\
+  (rok r = true -> dec_eq (mant r) (rexp r) (dmant n) (dexp n)) /\
+  (rok r = false -> rtrunc r = true \/ rhard r = true).
+Proof. exact readfloat_thm. Qed.
+Print Assumptions C09_readfloat.
+
+(* the string decoder, on the text of ANY string literal of the grammar followed by
+   anything, returns the string encoding/json defines (escapes, surrogate pairs
+   combined, lone surrogates as U+FFFD) and stops exactly after the closing quote.
+   Guard [nopin]: no surrogate escape is immediately followed by a \u escape it does
+   not pair with (known finding F09-2r, pinned by the upstream test suite). *)
+Theorem C09_unescape : forall (l : list item) (tl : list N),
+  forallb wf_item l = true -> nopin l = true ->
+  dec_string (render_lit l ++ tl) = Ok (denote l, tl).
+Proof. exact unescape_lemma. Qed.
+Print Assumptions C09_unescape.
+
+(* the full statement (no guard) is false of the faithful model: F09-2r *)
+Definition C09_unescape_full_statement : Prop := unescape_full_statement.
 Theorem C09_unescape_refuted :
   exists (l : list item) (tl : list N),
-    forallb wf_item l = true /\ dec_string (render_lit l ++ tl) <> Ok (denote l, tl).
+    forallb wf_item l = true /\ nopin l = false /\ dec_string (render_lit l ++ tl) <> Ok (denote l, tl).
 Proof. exact unescape_refuted. Qed.
 Print Assumptions C09_unescape_refuted.
+
+(* non-vacuity *)
+Example C09_readfloat_nonvacuous :
+  (* 0.<250 zeros>1 : the F09-1 witness, now the slow path; 1234.5e-3 exact *)
+  let n1 := mknum false [0%N] (Some (repeat 0%N 250 ++ [1%N])) None in
+  let n2 := mknum true [1;2;3;4]%N (Some [5%N]) (Some (EMinus, [3%N])) in
+  wf_numlit n1 = true /\ rok (readFloat (render_num false n1) fi64) = false /\
+  wf_numlit n2 = true /\ readFloat (render_num true n2) fi64 = mkrfr 12345 (-4) true false false false true.
+Proof. vm_compute. repeat apply conj; reflexivity. Qed.
+
+Example C09_unescape_nonvacuous :
+  let l := [Ch 97; U 100 56 48 48; Ch 98; Esc 110; U 100 56 51 52; U 100 100 49 101; U 100 99 48 48]%N in
+  forallb wf_item l = true /\ nopin l = true /\
+  dec_string (render_lit l ++ [44%N]) = Ok ([97; 239; 191; 189; 98; 10; 240; 157; 132; 158; 239; 191; 189]%N, [44%N]).
+Proof. vm_compute. repeat apply conj; reflexivity. Qed.
